@@ -11,6 +11,7 @@
 package main
 
 import (
+	"github.com/pingcap/kvproto/pkg/pdpb"
 	"context"
 	"flag"
 	"fmt"
@@ -31,6 +32,7 @@ import (
 	"github.com/tikv/pd/server/member"
 	"github.com/tikv/pd/server/tso"
 	"go.etcd.io/etcd/clientv3"
+	"google.golang.org/grpc"
 
 	"verifharness/internal/etcdh"
 	_ "verifharness/internal/quiet"
@@ -435,6 +437,32 @@ func (w *pworld) exec(f []string) string {
 		parts = append(parts, w.request(0, 1).String())
 		parts = append(parts, w.request(int(atoi(d)), 1).String())
 		return "grants " + strings.Join(parts, " ")
+	case f[0] == "rawtso" && len(f) == 3: // allocator (9 = an unknown dc-location), count: one request on a fresh pdpb Tso stream
+		dc := dcName(f[1])
+		if f[1] == "9" {
+			dc = "dc-nowhere"
+		}
+		conn, err := grpc.Dial(strings.TrimPrefix(w.svr.GetAddr(), "http://"), grpc.WithInsecure())
+		if err != nil {
+			return "dial-error"
+		}
+		defer conn.Close()
+		ctx, cancel := context.WithTimeout(context.Background(), 10*time.Second)
+		defer cancel()
+		stream, err := pdpb.NewPDClient(conn).Tso(ctx)
+		if err != nil {
+			return "err"
+		}
+		req := &pdpb.TsoRequest{Header: &pdpb.RequestHeader{ClusterId: w.svr.ClusterID()}, Count: uint32(atoi(f[2])), DcLocation: dc}
+		if err := stream.Send(req); err != nil {
+			return "err"
+		}
+		resp, err := stream.Recv()
+		if err != nil {
+			return "err"
+		}
+		// an answer without a gRPC error is what the pd client hands out as a timestamp
+		return fmt.Sprintf("ts %d %d %d", resp.GetTimestamp().GetPhysical(), resp.GetTimestamp().GetLogical(), resp.GetTimestamp().GetSuffixBits())
 	case f[0] == "lrestart":
 		// every local allocator steps down at once (ResetAllocatorGroup) and is re-elected on this server: its
 		// memory is rebuilt from its persisted window and the cluster's largest local timestamp
@@ -582,7 +610,7 @@ func main() {
 			o = fmt.Sprintf("%d", tso.VerifDifferentiate(a, b, c))
 		case "sreset", "dcjoin", "dcleave", "slead", "checker", "gchecker", "sfinish":
 			o = sw.exec(f) + " " + sw.table()
-		case "pinit", "req", "setts", "burst", "bigreq", "lrestart", "joinlate":
+		case "pinit", "req", "setts", "burst", "bigreq", "lrestart", "joinlate", "rawtso":
 			p := getPW()
 			o = p.exec(f)
 			if f[0] != "burst" && f[0] != "bigreq" && f[0] != "joinlate" {
